@@ -33,8 +33,9 @@ def seeded():
 		first = (hist[0].get('caught_by') if hist else w.get('caught_by'))
 		now = w.get('caught_by')
 		summ = (m.get('summary') or '').replace('|', '/').replace('\n', ' ')[:200]
-		needs = (m.get('needs_to_manifest') or '').replace('|', '/').replace('\n', ' ')[:200]
-		out.append(f'| {name} | {summ} — needs: {needs} | {"caught" if first else "MISSED"} | {"caught by " + ",".join(now) if now else "MISSED"} |')
+		needs = (m.get('needs_to_manifest') or m.get('needs') or '').replace('|', '/').replace('\n', ' ')[:200]
+		note = ' (superseded: no longer a violation since a later fix: commit)' if m.get('superseded') else (' (patch rebased onto the current HEAD)' if m.get('ported') else '')
+		out.append(f'| {name} | {summ} — needs: {needs} | {"caught" if first else "MISSED"} | {"caught by " + ",".join(now) if now else "MISSED"}{note} |')
 	return '\n'.join(out)
 
 def main():
